@@ -26,6 +26,9 @@ def sig_of(case, prog, clause, pos):
            "rgb": bool(prog["vol"].get("rgb")), "header_scaling": bool(prog["vol"].get("scl")),
            "ignore_scaling": bool(prog.get("ignore_scaling")),
            "obstructed": any(c["op"] == "Obstruct" for c in prog["cmds"]),
+           "in_process": prog.get("link") is not None,
+           "per_scale_sharding": bool(prog.get("shard_per_scale")),
+           "input_range": bool(prog.get("input_range")),
            "several_chunk_sizes": any(c["op"] == "Rechunk" or (c["op"] == "Edit" and c["m"].startswith("cs"))
                                       for c in prog["cmds"])}
     if ev is None:
@@ -59,8 +62,13 @@ def run_and_judge(ctx, progs, workers=12, chunk=150, label=""):
         st, clause, pos = verdicts[k + 1]
         out.append((p, c, (st, clause, pos)))
         if st == "bad":
-            ctx.violation(clause, sig_of(c, p, clause, pos),
-                          {"label": label, "prog": p, "pos": pos, "log": c.get("_log", [])})
+            detail = {"label": label, "prog": p, "pos": pos, "log": c.get("_log", [])}
+            if p.get("link") is not None:
+                # the conversion ran in one interpreter with the other programs of its group
+                group = [q for q in progs if q.get("link") == p["link"]]
+                detail["group"] = group
+                detail["index"] = [id(q) for q in group].index(id(p))
+            ctx.violation(clause, sig_of(c, p, clause, pos), detail)
         elif st == "drift":
             lg = c.get("_log", [])
             ctx.note_drift(clause, {"label": label, "pos": pos,
@@ -77,7 +85,10 @@ def replay_prog(ctx, path):
         rp = json.load(f)
     prog = rp["detail"]["prog"]
     work = ctx.scratch("verif_pipe_")
-    case = pd.run_program(work, prog, "replay")
+    if rp["detail"].get("group"):
+        case = pd.run_linked(work, rp["detail"]["group"], "replay")[rp["detail"]["index"]]
+    else:
+        case = pd.run_program(work, prog, "replay")
     t = pd.strip_case(case)
     t["tid"] = 1
     v = ctx.judge(TRACE, [t])
